@@ -104,6 +104,15 @@ CHECKS['C10'] = dict(
     note='trusted: TLC, Pack.tla, harness/pyxlite.py (the compiled C is not executed); reference isotopes exported from the element classes (their agreement with the .pyx tables is what the byte comparison tests)',
     technique='TLA+ encoder of the published byte layout evaluated by TLC against recorded pack/unpack calls and shipped packs',
     design='5/C10')
+CHECKS['C18'] = dict(
+    text='Complete enumeration: one record per element (all 118) with symbol / number lookups, abundance and mass keys, the three copies of the '
+         'reference isotope (element classes and both .pyx tables), mass computability, query / dynamic variants and compiled valence rules, '
+         'validated by TLC against Tables.tla (standard symbol table literal in the spec, rule count against the TLA+ compilation); every '
+         '(element, tabulated isotope) x charge x hydrogens x radical is packed / compared with the spec encoder / unpacked; MC_Mask shows every '
+         'attribute value has its own matcher bit.',
+    note='trusted: TLC, Tables.tla / Pack.tla / Mask.tla, pyx-lite for the pack codecs',
+    technique='TLC evaluation of table-consistency invariants over the completely enumerated exported tables',
+    design='5/C18')
 PENDING = {}
 
 
